@@ -4,6 +4,10 @@ import json, sys, os
 sys.path.insert(0, '/verif')
 from checks_config import PROPS
 meta = json.load(open('/verif/manifest_meta.json'))
+import glob
+meta['checks'] = {}
+for f in sorted(glob.glob('/verif/manifest.d/*.json')):
+    meta['checks'].update(json.load(open(f)))
 props = [json.loads(l)['id'] for l in open('/verif/properties.jsonl')]
 checks, na = [], []
 for p in props:
